@@ -559,15 +559,9 @@ func (g *nameGen) history() {
 			}
 		}
 	}
-	g.out.Count(fmt.Sprintf("final-records:%d", nameMinInt(len(e.records()), 12)))
+	g.out.Count(fmt.Sprintf("final-records:%d", minInt(len(e.records()), 12)))
 }
 
-func nameMinInt(a, b int) int {
-	if a < b {
-		return a
-	}
-	return b
-}
 
 func driveName(t *testing.T, rng *RNG, n int, out *Out) {
 	e := newNameEnv(t)
